@@ -289,7 +289,7 @@ static Verdict c14_model(const Case& c) {
 int main(int argc, char** argv) {
   std::vector<Sub> subs;
   {
-    Sub s; s.name = "c12.moduli"; s.property = "C12"; s.instances = 3 * 20; s.n_quick = 300; s.n_thorough = 30000; s.run = c12_moduli;
+    Sub s; s.name = "c12.moduli"; s.property = "C12"; s.instances = 3 * 20; s.n_quick = 3000; s.n_thorough = 60000; s.run = c12_moduli;
     s.gen = [](int inst) { const int pair = inst % 20, nt = inst / 20; return rc::gen::map(gen_material(nt), [=](const std::vector<LD>& v) { Case c; c.i = {nt, pair}; c.r = v; return c; }); };
     s.instance_name = [](int inst) { return std::string(kPairName[inst % 20]) + "/" + ntinfo(inst / 20).name; };
     s.rule = "20 constructors x 3 model numeric types; materials mu > 0 over +-40 binades, nu = 0 exactly (5%), uniform in [0, 0.49) (70%), 0.5 - 2^-k (25%), lambda = 2 mu nu/(1-2 nu); oracle: the seven reported moduli satisfy "
@@ -298,7 +298,7 @@ int main(int argc, char** argv) {
     subs.push_back(s);
   }
   {
-    Sub s; s.name = "c12.stress"; s.property = "C12"; s.instances = 9; s.n_quick = 2000; s.n_thorough = 100000; s.run = c12_stress;
+    Sub s; s.name = "c12.stress"; s.property = "C12"; s.instances = 9; s.n_quick = 15000; s.n_thorough = 300000; s.run = c12_stress;
     s.gen = [](int inst) { const int ntm = inst / 3, nta = inst % 3; const int nmin = ntinfo(ntm).mant < ntinfo(nta).mant ? ntm : nta; const int w = nmin == 0 ? 12 : 20;
       return rc::gen::map(rc::gen::tuple(gen_material(ntm), gen_reals(12, nta, -w, w, kNeg | kZero)), [=](const std::tuple<std::vector<LD>, std::vector<LD>>& t) {
         Case c; c.i = {ntm, nta}; c.r = std::get<0>(t);
@@ -309,14 +309,14 @@ int main(int argc, char** argv) {
     subs.push_back(s);
   }
   {
-    Sub s; s.name = "c12.misc"; s.property = "C12"; s.instances = 3; s.n_quick = 300; s.n_thorough = 10000;
+    Sub s; s.name = "c12.misc"; s.property = "C12"; s.instances = 3; s.n_quick = 1000; s.n_thorough = 20000;
     s.gen = [](int inst) { return rc::gen::map(gen_material(inst), [=](const std::vector<LD>& v) { Case c; c.i = {inst}; c.r = v; return c; }); };
     s.run = [](const Case& c) { const int nt = (int)c.i[0]; return nt == 0 ? c12_misc_t<float>(nt, c.r[0], c.r[1]) : nt == 1 ? c12_misc_t<double>(nt, c.r[0], c.r[1]) : c12_misc_t<long double>(nt, c.r[0], c.r[1]); };
     s.rule = "GetType(), Print / JSON / XML / YAML carry both stored moduli, streaming through the abstract interface equals Print()";
     subs.push_back(s);
   }
   {
-    Sub s; s.name = "c13.fluids"; s.property = "C13"; s.instances = 27; s.n_quick = 1000; s.n_thorough = 50000; s.run = c13;
+    Sub s; s.name = "c13.fluids"; s.property = "C13"; s.instances = 27; s.n_quick = 6000; s.n_thorough = 100000; s.run = c13;
     s.gen = [](int inst) { const int cls = inst % 3, nta = (inst / 3) % 3, ntm = inst / 9; const int nmin = ntinfo(ntm).mant < ntinfo(nta).mant ? ntm : nta; const int w = nmin == 0 ? 12 : 40, wt = nmin == 0 ? 10 : 20;
       return rc::gen::map(rc::gen::tuple(gen_reals(2, ntm, -w, w, 0), gen_reals(2, nta, -4, 4, kNeg), irange(0, 1), gen_reals(18, nta, -wt, wt, kNeg | kZero)), [=](const std::tuple<std::vector<LD>, std::vector<LD>, int, std::vector<LD>>& t) {
         Case c; c.i = {ntm, nta, cls}; c.r = std::get<0>(t); LD al = std::get<1>(t)[0], be = std::get<1>(t)[1]; if (std::get<2>(t)) { int e; std::frexp(al, &e); al = std::ldexp((LD)(al < 0 ? -1 : 1), e); std::frexp(be, &e); be = std::ldexp((LD)(be < 0 ? -1 : 1), e); }
@@ -330,7 +330,7 @@ int main(int argc, char** argv) {
     subs.push_back(s);
   }
   {
-    Sub s; s.name = "c14.models"; s.property = "C14"; s.instances = 9; s.n_quick = 2000; s.n_thorough = 50000; s.run = c14_model;
+    Sub s; s.name = "c14.models"; s.property = "C14"; s.instances = 9; s.n_quick = 5000; s.n_thorough = 100000; s.run = c14_model;
     s.gen = [](int inst) { const int cls = inst % 3, nt = inst / 3; const LD inf = std::numeric_limits<LD>::infinity();
       auto val = rc::gen::oneOf(rc::gen::element<LD>(-inf, -1, -(LD)0, (LD)0, 1, 2, inf, std::ldexp((LD)1, ntinfo(nt).emin)), gen_real(nt, -4, 4, kNeg | kZero));
       return rc::gen::map(rc::gen::tuple(rc::gen::container<std::vector<LD>>(4, val), irange(0, 2)), [=](const std::tuple<std::vector<LD>, int>& t) { Case c; c.i = {nt, cls}; c.r = std::get<0>(t); if (std::get<1>(t) >= 1) c.r[2] = c.r[0]; if (std::get<1>(t) == 2) c.r[3] = c.r[1]; return c; }); };
